@@ -50,6 +50,9 @@ func Main() {
 			timeout = time.Duration(ms) * time.Millisecond
 		}
 	}
+	// VERIF_FLUSH_EACH=1: flush every reply, so that a process killed mid-request (e.g. by the race detector
+	// with GORACE=halt_on_error=1) loses only the reply of the request that killed it
+	flushEach := os.Getenv("VERIF_FLUSH_EACH") != ""
 	in := bufio.NewReaderSize(os.Stdin, 1<<20)
 	out := bufio.NewWriterSize(os.Stdout, 1<<20)
 	defer out.Flush()
@@ -75,6 +78,9 @@ func Main() {
 		select {
 		case r := <-done:
 			fmt.Fprintln(out, proto.Line(append([]string{r.status}, r.fields...)...))
+			if flushEach {
+				out.Flush()
+			}
 		case <-time.After(timeout):
 			fmt.Fprintln(out, proto.Line("timeout"))
 			out.Flush()
